@@ -30,6 +30,10 @@ RULE = ("One feature with 1-2 scenarios of 1-3 steps. Every step function (befor
         "before/after_scenario, after_feature and after the run; root logger's non-behave handlers and level at the next "
         "scenario start / feature end equal the snapshot taken in before_scenario (which sets a distinctive level 25 and adds "
         "the user handler). "
+        "Initial root logger state dimension: root level {NOTSET(0), DEBUG, WARNING, CRITICAL} set in before_scenario (seen by the "
+        "scenario's capture setup, which runs after that hook) or before the run x --logging-level {unset, NOTSET, DEBUG, WARNING} "
+        "x root handlers {none, one user handler}, plus --logging-clear-handlers with nothing to clear and an empty "
+        "--logging-filter= (every saved/restored quantity takes its falsy value) x 8 switches. "
         "Volume dimension: a passing step emits N stdout lines, N stderr lines and N log records before the failing step, "
         "N = capacity-1, capacity, capacity+1, 2*capacity+1 where capacity is read at run time from the real LoggingCapture "
         "handler object (logging.handlers.BufferingHandler capacity, the only size constant in behave/capture.py and "
@@ -76,6 +80,29 @@ LOGVARS = {
               "level": logging.ERROR, "filter": "-other", "clear": True},
 }
 SWITCHES = tuple(itertools.product((True, False), repeat=3))
+
+# "initial root logger state" dimension: variant names  rs|<where>|<root level>|<config level>|<handler 0/1>|<clear 0/1>|<filter>
+#   where = hook: a before_scenario hook sets the root level / adds the user handler (what the scenario's capture setup sees:
+#           Scenario.run calls run_hook("before_scenario") BEFORE runner.setup_capture());  prerun: the embedding program did so
+#   every saved/restored quantity gets its falsy value: level NOTSET (0), no handler at all (empty list), empty filter string
+ROOT_LEVELS = (logging.NOTSET, logging.DEBUG, logging.WARNING, logging.CRITICAL)
+CONFIG_LEVELS = {"unset": ([], logging.INFO), "NOTSET": (["--logging-level=NOTSET"], logging.NOTSET),
+                 "DEBUG": (["--logging-level=DEBUG"], logging.DEBUG), "WARNING": (["--logging-level=WARNING"], logging.WARNING)}
+
+
+def logvar(name):
+    if name in LOGVARS:
+        return LOGVARS[name]
+    tag, where, rl, cl, h, clear, flt = name.split("|")
+    assert tag == "rs"
+    args, level = CONFIG_LEVELS[cl]
+    args = list(args)
+    if clear == "1":
+        args.append("--logging-clear-handlers")
+    if flt == "empty":
+        args.append("--logging-filter=")        # falsy filter: "by default, everything is captured"
+    return {"args": args, "handler": h == "1", "level": level, "filter": None, "clear": clear == "1",
+            "root": int(rl), "where": where}
 
 
 class HookFault(Exception):
@@ -124,6 +151,8 @@ def route(chan, sw, lv):
     if cap_log:
         c = log_captured(chan, lv)
         return "cap" if c else ("cap?" if c is None else "drop")
+    if LOGSPEC[chan][1] < lv.get("root", USER_LEVEL):
+        return "drop"                         # logging left intact: below the user's own root level
     if lv["handler"]:
         return "user"
     if lv.get("basic"):
@@ -227,7 +256,7 @@ def drive(scens, sw, lvname, vol=None):
     from behave.log_capture import LoggingCapture
     from behave.formatter.plain import PlainFormatter
     from behave.formatter.pretty import PrettyFormatter
-    lv = LOGVARS[lvname]
+    lv = logvar(lvname)
     root = logging.getLogger()
     saved_handlers, saved_level = list(root.handlers), root.level
     saved_raise = logging.raiseExceptions
@@ -238,10 +267,12 @@ def drive(scens, sw, lvname, vol=None):
         lg.propagate = True
         lg.disabled = False
     root.handlers[:] = []
-    root.setLevel(logging.WARNING)
+    root.setLevel(lv["root"] if lv.get("where") == "prerun" else logging.WARNING)
     old_out, old_err = sys.stdout, sys.stderr
     s_out, s_err = Sentinel("stdout"), Sentinel("stderr")
     user = ListHandler()
+    if lv.get("where") == "prerun" and lv["handler"]:
+        root.addHandler(user)
     obs = {"produced": [], "ident": [], "snap": [], "escaped": None, "verdict": None}
     produced = obs["produced"]
     snap = [None]
@@ -302,9 +333,10 @@ def drive(scens, sw, lvname, vol=None):
         def before_scenario(ctx, scenario):
             check_snapshot("before_scenario")
             note("before_scenario")
-            if lv["handler"] and user not in root.handlers:
-                root.addHandler(user)
-            root.setLevel(USER_LEVEL)
+            if lv.get("where") != "prerun":
+                if lv["handler"] and user not in root.handlers:
+                    root.addHandler(user)
+                root.setLevel(lv.get("root", USER_LEVEL))
             snap[0] = snapshot()
 
         def before_all(ctx):
@@ -358,7 +390,7 @@ def drive(scens, sw, lvname, vol=None):
 
 # --------------------------------------------------------------------------- oracle
 def judge(scens, sw, lvname, obs, v):
-    lv = LOGVARS[lvname]
+    lv = logvar(lvname)
     produced = obs["produced"]
     rt = {mk: route(MARK.match(mk).group(1), sw, lv) for mk in produced}
     chan_of = lambda mk: CHAN_NAME[MARK.match(mk).group(1)]     # noqa
@@ -490,7 +522,8 @@ def judge(scens, sw, lvname, obs, v):
                       "switches %s, %s: at %s root handlers (non-behave) are %s, before the scenario %s"
                       % (sws, lvname, where, hs, want_h)))
         if lvl != want_l:
-            v.append(({"subcheck": "logging", "clause": "root-level-not-restored"},
+            v.append(({"subcheck": "logging", "clause": "root-level-not-restored",
+                       "saved_level": "NOTSET(0)" if want_l == 0 else "non-zero"},
                       "switches %s, %s: at %s root level is %s, before the scenario %s" % (sws, lvname, where, lvl, want_l)))
     if obs.get("leftover_lc"):
         v.append(({"subcheck": "logging", "clause": "capture-handler-left-on-root-after-run"},
@@ -768,6 +801,30 @@ def small_cases():
                 yield (prog, sw, lvname)
 
 
+def rootstate_cases(tier):
+    """initial root logger state x config logging level x handlers (falsy values included), all 8 switches"""
+    progs = [(("pass",), ("fail",)), (("fail",), ("pass",)), (("kbi",), ("pass",)), (("exec", "ha"), ("hb",))]
+    if tier != "quick":
+        one = list(seqs(1))
+        progs = [(a, b) for a in one for b in one] + [(a,) for a in seqs(2)]
+    names = []
+    for where in ("hook", "prerun"):
+        for rl in ROOT_LEVELS:
+            for cl in ("unset", "NOTSET", "DEBUG", "WARNING"):
+                for h in "01":
+                    names.append("rs|%s|%d|%s|%s|0|-" % (where, rl, cl, h))
+    for where in ("hook", "prerun"):
+        for rl in (logging.NOTSET, logging.WARNING):
+            for h in "01":          # h=0 + clear: the list of removed handlers is empty
+                names.append("rs|%s|%d|unset|%s|1|-" % (where, rl, h))
+                names.append("rs|%s|%d|unset|%s|0|empty" % (where, rl, h))
+                names.append("rs|%s|%d|NOTSET|%s|1|empty" % (where, rl, h))
+    for lvname in names:
+        for prog in progs:
+            for sw in SWITCHES:
+                yield (prog, sw, lvname)
+
+
 def run(ctx):
     if ctx.quick:
         ctx.bounds = {"scenarios": "1-2", "steps_per_scenario": "all outcome sequences of length <= 2 (second scenario <= 1 when the first has 2, and vice versa)",
@@ -776,9 +833,14 @@ def run(ctx):
         ctx.bounds = {"scenarios": "1-2", "steps_per_scenario": "single scenario: all outcome sequences of length <= 3; two scenarios: all pairs of "
                       "sequences of length <= 3 whose never-executed tail after the first failing step is 'pass'",
                       "outcomes": len(OUTCOMES), "switch_combinations": 8, "logging_variants": 8, "child_processes": len(CHILD_CASES)}
+    ctx.bounds["root_logger_state"] = {"root_level": list(ROOT_LEVELS), "config_logging_level": sorted(CONFIG_LEVELS),
+                                       "handlers": ["none", "one user handler"], "set": ["before_scenario hook", "before the run"],
+                                       "falsy": ["level 0", "no handler with --logging-clear-handlers", "--logging-filter= (empty)"]}
     ctx.bounds["volume_N"] = ["%d*capacity%+d" % mo for mo in VOLUMES]
     ctx.sweep(run_case, cases(ctx.tier), chunk=48, name="outcome sequences x 8 capture switches x logging variants")
     ctx.sweep(volume_case, volume_cases(ctx.tier), chunk=2, name="volume: N lines/records around the log handler capacity")
+    ctx.sweep(run_case, rootstate_cases(ctx.tier), chunk=48,
+              name="initial root logger level {NOTSET,DEBUG,WARNING,CRITICAL} x config level x handlers {none,user}")
     if ctx.quick:
         ctx.sweep(run_case, small_cases(), chunk=16, name="remaining logging variants on small programs")
     else:
@@ -799,10 +861,19 @@ def run(ctx):
         for total in (0, 1):
             ctx.guard((mult, off, total) in vols, "volume N = %d*capacity%+d (%s) exercised" % (mult, off, "all buffered records" if total else "volume records"))
     ctx.guard("vol-logcap" in routes, "volume cases with log capture on")
+    rs_seen = set()
     for k in ctx.outcomes:
         if len(k) == 4:
             routes.update(k[3])
             stats.update(k[2])
+            if isinstance(k[1], str) and k[1].startswith("rs|") and k[0][2]:
+                f = k[1].split("|")
+                rs_seen.add((f[1], int(f[2]), f[3], f[4]))
+    for where in ("hook", "prerun"):
+        for rl in ROOT_LEVELS:
+            for cl in ("unset", "NOTSET", "DEBUG", "WARNING"):
+                ctx.guard((where, rl, cl, "0") in rs_seen and (where, rl, cl, "1") in rs_seen,
+                          "log capture on with root level %d set %s, config level %s, with and without a user handler" % (rl, where, cl))
     for r in ("cap", "out", "err", "user", "drop", "cap?"):
         ctx.guard(r in routes, "marker route %r exercised" % r)
     for s in ("passed", "failed", "error", "hook_error", "skipped", "untested"):
